@@ -456,6 +456,8 @@ func (h *Hist) genTx() *histTx {
 			np := o.OrderPrice
 			np.Rate = np.Rate.Mul(D([]string{"0.9", "1.1"}[r.Intn(2)]))
 			tx.req.Msgs = []sdk.Msg{&tstypes.MsgUpdateSpotOrder{OwnerAddress: signer.Addr.String(), OrderId: o.OrderId, OrderPrice: np}}
+			tx.f = J{"id": o.OrderId, "owner": o.OwnerAddress, "rate": decRaw(np.Rate)}
+			break
 		}
 		tx.f = J{"id": o.OrderId, "owner": o.OwnerAddress}
 	case "ts.perpCreate":
@@ -491,6 +493,8 @@ func (h *Hist) genTx() *histTx {
 			nt := o.TriggerPrice
 			nt.Rate = nt.Rate.Mul(D([]string{"0.9", "1.1"}[r.Intn(2)]))
 			tx.req.Msgs = []sdk.Msg{&tstypes.MsgUpdatePerpetualOrder{OwnerAddress: signer.Addr.String(), OrderId: o.OrderId, TriggerPrice: nt}}
+			tx.f = J{"id": o.OrderId, "owner": o.OwnerAddress, "rate": decRaw(nt.Rate)}
+			break
 		}
 		tx.f = J{"id": o.OrderId, "owner": o.OwnerAddress}
 	case "ts.execute":
